@@ -131,6 +131,11 @@ def gen_agg(r, tag, earlier, features, prefix=''):
                 a = r.choice([1, 2, 4, 8, 16, 32, 64])
                 if a >= sz:
                     al = '_Alignas(%d) ' % a
+                if r.random() < 0.35:
+                    # the type-name form means the alignment of that type, not its size (6.7.5p6)
+                    cand = [(ta, tn) for ta, tn in ((1, 'char[16]'), (2, 'short[3]'), (4, 'int[4]'), (4, 'struct { int a, b; }'), (8, 'long[2]'), (8, 'struct { char c; double d; }'), (8, 'void *[3]'), (4, 'float[5]')) if ta >= sz]
+                    if cand:
+                        al = '_Alignas(%s) ' % r.choice(cand)[1]
             members.append(Member(name, al + fmt_decl(ty, name), 'scalar', ty=ty))
             names += 1
     if not names:
